@@ -53,6 +53,8 @@ theorem namingPattern : Generated.namingPattern.re = Pinned.namingPattern.re ∧
 theorem namingVersion : Generated.namingVersion.re = Pinned.namingVersion.re ∧ Generated.namingVersion.ngroups = Pinned.namingVersion.ngroups ∧ Generated.namingVersion.names = Pinned.namingVersion.names := by decide
 theorem versionedPackage : Generated.versionedPackage.re = Pinned.versionedPackage.re ∧ Generated.versionedPackage.ngroups = Pinned.versionedPackage.ngroups ∧ Generated.versionedPackage.names = Pinned.versionedPackage.names := by decide
 theorem templates : Generated.templates = Pinned.templates := rfl
+theorem templatesChars : Generated.templatesChars = Pinned.templatesChars := rfl
 theorem adsTemplates : Generated.adsTemplates = Pinned.adsTemplates := rfl
+theorem adsTemplatesChars : Generated.adsTemplatesChars = Pinned.adsTemplatesChars := rfl
 
 end GapicModel.Bridge
